@@ -23,11 +23,14 @@ package commands
 
 // The ids collected by the scan come out of the pointer parser (assumed: 64
 // hex digits, so joining one to a directory stays inside that directory).
+// The object scan skips exactly the paths of lfs.fetchexclude (objects that
+// were never fetched are not missing) and no others - in particular
+// lfs.fetchinclude does not narrow what fsck examines.
 //@ func doFsckObjects
-//@   assumed
 //@   props C13 C09
-//@   modifies all
-//@   ensures forall_int(i, result[i], 0 <= i && i < len(result) ==> isoid(result[i]))
+//@   modifies everything
+//@   at call filepathfilter.New:1 assert len(arg0__) == 0 && arg1__ == lastfx(0)
+//@   ensures @assumed forall_int(i, result[i], 0 <= i && i < len(result) ==> isoid(result[i]))
 
 // C13, pointer half: the per-file callback of the pointer scan records exactly
 // the files that are non-canonical pointers or that should have been pointers
@@ -152,10 +155,18 @@ package commands
 //@   modifies fresh
 //@   monitor guard_path[path] := result == nil
 //@   ensures result == nil ==> unlockCmdFlags.Force || !gitmodified(path)
+// By id the path comes from the lock itself: from the local cache or, when the
+// cache does not know the id, from the server (whatever --force says); only
+// when neither knows the lock is there nothing to guard.
 //@ func unlockAbortIfFileModifiedById
 //@   props C16
-//@   modifies fresh
+//@   requires @inv lockClient != nil
+//@   modifies fresh, ghost lastsearch, ghost lastsearchlocal
 //@   monitor guard_id[id] := result == nil
+//@   at call (*locking.Client).SearchLocks:1 assert has(arg1__, "id") && arg1__["id"] == id && arg2__ == 0
+//@   at call (*locking.Client).SearchLocks:2 assert has(arg1__, "id") && arg1__["id"] == id && arg2__ == 0 && !arg3__ && !arg4__
+//@   ensures result == nil && !unlockCmdFlags.Force && len(sliceof(lastsearch(), "github.com/git-lfs/git-lfs/v3/locking.Lock")) > 0 ==> !gitmodified(sliceof(lastsearch(), "github.com/git-lfs/git-lfs/v3/locking.Lock")[0].Path)
+//@   ensures result == nil && !unlockCmdFlags.Force && len(sliceof(lastsearch(), "github.com/git-lfs/git-lfs/v3/locking.Lock")) == 0 ==> !lastsearchlocal()
 //@ func unlockCommand
 //@   props C16
 //@   at call (*locking.Client).UnlockFile:1 assert guard_path(arg1__)
@@ -169,7 +180,8 @@ package commands
 //@ func (*github.com/git-lfs/git-lfs/v3/locking.Client).SearchLocks
 //@   assumed
 //@   props C16
-//@   modifies fresh
+//@   modifies fresh, ghost lastsearch, ghost lastsearchlocal
+//@   ensures result0 == lastsearch() && lastsearchlocal() == localOnly
 //@ func (*github.com/git-lfs/git-lfs/v3/locking.Client).UnlockFile
 //@   assumed
 //@   props C16
@@ -628,14 +640,6 @@ package commands
 //@   props C14
 //@   modifies fresh
 //@ func (*github.com/git-lfs/git-lfs/v3/config.Configuration).TransferBatchSize
-//@   assumed
-//@   props C14
-//@   modifies fresh
-//@ func (*github.com/git-lfs/git-lfs/v3/config.Configuration).FetchIncludePaths
-//@   assumed
-//@   props C14
-//@   modifies fresh
-//@ func (*github.com/git-lfs/git-lfs/v3/config.Configuration).FetchExcludePaths
 //@   assumed
 //@   props C14
 //@   modifies fresh
